@@ -21,8 +21,8 @@ all binary64) times, recordings of any length and any positive sample width.
 | rejection | `both_lists_rejected`, `out_of_range_rejected` (both bounds, any order), `nonpositive_interval_rejected`, `negative_time_regression` |
 | not rejected (disjointness is assumed, not enforced) | `overlap_keep_counterexample`, `nested_delete_counterexample`, `nested_out_of_range_counterexample` |
 | generators | `silence_length`, `silence_zero`, `sine_length` |
-| extractSubwav | `extract_spec`, `extract_outside`, `extract_eq_getSubwav` |
-| splitAudioOnTier | `split_one_per_entry`, `split_names_nodup`, `split_frames`, `split_entries_inside`, `split_entry_outside`, `split_tg_span`, `split_tg_label` |
+| extractSubwav | `extract_spec` (every `s ≤ e`, clamped into the recording), `extract_reversed` (ArgumentError), `extract_outside`, `extract_eq_getSubwav` |
+| splitAudioOnTier | `split_one_per_entry`, `split_names_nodup`, `split_frames`, `split_entry_outside`, `split_tg_span`, `split_tg_label` |
 -/
 open Audio Extract
 namespace C17
@@ -577,31 +577,65 @@ theorem readAt_window (f : WavFile) (a b : Int) (hs : 0 ≤ a) (hsn : a ≤ f.nf
     rw [hm]
     simp [h1', h2', h3']
 
-/-- **reading a stretch returns the bytes of the samples between the two nearest sample indices** — for every pair of
-times, on or off the sample grid, whose *start* index `round(rate·s)` is a position of the file (`0 … nframes`):
-a reversed pair (`e < s`) reads nothing, an end beyond the file is clamped to the end of the data (as `window` is).
-The other starts: `read_window_error`. -/
-theorem read_window (den : Nat) (f : WavFile) (s e : Int)
-    (hs : 0 ≤ samplesIn den f.rate s) (hsn : samplesIn den f.rate s ≤ f.nframes) :
-    readFramesAtTime f ⟨s, den⟩ ⟨e, den⟩ = .ok (window den f (s, e)) :=
-  readAt_window f _ _ hs hsn
+/-- the frame index of the time `t / den`, clamped into the file: `min(max(round(rate·t), 0), nframes)`
+(`readFramesAtTime` as repaired, commit 300c9d2) -/
+def cidx (den : Nat) (f : WavFile) (t : Int) : Nat := clampSample (samplesIn den f.rate t) f.nframes
 
-/-- a start whose sample index is negative or beyond the last position: `setpos` raises `wave.Error` -/
-theorem read_window_error (den : Nat) (f : WavFile) (s e : Int)
-    (h : samplesIn den f.rate s < 0 ∨ (f.nframes : Int) < samplesIn den f.rate s) :
-    readFramesAtTime f ⟨s, den⟩ ⟨e, den⟩ = .error .WaveError := by
-  unfold readFramesAtTime
-  show (f.readAt (samplesIn den f.rate s) _) = _
-  unfold WavFile.readAt
-  rw [if_pos h]
+/-- the bytes of the frames between the two clamped frame indices -/
+def cwindow (den : Nat) (f : WavFile) (p : Int × Int) : List UInt8 :=
+  (f.data.drop (cidx den f p.1 * f.width)).take ((cidx den f p.2 - cidx den f p.1) * f.width)
+
+/-- **reading a stretch returns the bytes of the samples between the two nearest sample indices of the file** —
+for EVERY pair of times, on or off the sample grid, negative, beyond the end, reversed (`e < s` reads nothing).
+No hypothesis: `readFramesAtTime` never raises (before the repair 300c9d2 a start index outside `0 … nframes` made
+`setpos` raise `wave.Error`). -/
+theorem read_window (den : Nat) (f : WavFile) (s e : Int) :
+    readFramesAtTime f ⟨s, den⟩ ⟨e, den⟩ = .ok (cwindow den f (s, e)) := by
+  have h := readAt_window f ((cidx den f s : Nat) : Int) ((cidx den f e : Nat) : Int) (by omega)
+    (by have := C16.clampSample_le (samplesIn den f.rate s) f.nframes; unfold cidx; omega)
+  rw [Int.toNat_natCast, Int.toNat_natCast] at h
+  exact h
+
+/-- the formerly rejected starts, explicitly: a start index before the first frame reads from the first frame, a
+start index beyond the last position reads nothing -/
+theorem read_window_outside (den : Nat) (f : WavFile) (s e : Int) :
+    (samplesIn den f.rate s ≤ 0 →
+      readFramesAtTime f ⟨s, den⟩ ⟨e, den⟩ = .ok (f.data.take (cidx den f e * f.width))) ∧
+    ((f.nframes : Int) ≤ samplesIn den f.rate s → readFramesAtTime f ⟨s, den⟩ ⟨e, den⟩ = .ok []) := by
+  rw [read_window]
+  unfold cwindow
+  constructor
+  · intro h
+    have : cidx den f s = 0 := C16.clampSample_nonpos _ _ h
+    simp [this]
+  · intro h
+    have h1 : cidx den f s = f.nframes := C16.clampSample_beyond _ _ h
+    have h2 : cidx den f e ≤ f.nframes := C16.clampSample_le _ _
+    have : cidx den f e - cidx den f s = 0 := by omega
+    simp [this]
+
+/-- when the end index is inside the file the clamped window is the plain window `[round(rate·s), round(rate·e))` -/
+theorem cwindow_eq_window (den : Nat) (f : WavFile) (s e : Int) (h2 : idx den f.rate e ≤ f.nframes) :
+    cwindow den f (s, e) = window den f (s, e) := by
+  have hce : cidx den f e = idx den f.rate e := by
+    unfold cidx clampSample idx at *; omega
+  unfold cwindow window
+  simp only [hce]
+  by_cases hs : idx den f.rate s ≤ f.nframes
+  · have hcs : cidx den f s = idx den f.rate s := by
+      unfold cidx clampSample idx at *; omega
+    rw [hcs]
+  · have hcs : cidx den f s = f.nframes := by
+      unfold cidx clampSample idx at *; omega
+    have z1 : idx den f.rate e - cidx den f s = 0 := by omega
+    have z2 : idx den f.rate e - idx den f.rate s = 0 := by omega
+    rw [z1, z2]; simp
 
 /-- the form used below: a window `0 ≤ s ≤ e` whose end index is inside the file -/
 theorem read_window_in (den : Nat) (hden : 0 < den) (f : WavFile) (s e : Int) (hs : 0 ≤ s) (hse : s ≤ e)
     (he : idx den f.rate e ≤ f.nframes) :
     readFramesAtTime f ⟨s, den⟩ ⟨e, den⟩ = .ok (window den f (s, e)) := by
-  have hB := idx_cast den f.rate hden e (by omega)
-  have hAB := samplesIn_mono den f.rate hden s e hse
-  exact read_window den f s e (samplesIn_nonneg den f.rate hden s hs) (by omega)
+  rw [read_window, cwindow_eq_window den f s e he]
 
 theorem take_min_drop_min {β} (l : List β) (x y : Nat) :
     (l.take (min y l.length)).drop (min x l.length) = (l.drop x).take (y - x) := by
@@ -627,20 +661,13 @@ theorem getB_window (data : List UInt8) (w : Nat) (a b : Int) (hs : 0 ≤ a) (he
   unfold pyClamp
   rw [if_neg (by omega), if_neg (by omega), Int.toNat_natCast, Int.toNat_natCast, take_min_drop_min, Nat.sub_mul]
 
-/-- the window is what `Wav.getFrames` returns for the same times on the recording loaded in memory — for all times
-whose sample indices are not negative (a negative index makes the in-memory slice count from the end: C16's domain),
-reversed or beyond the end included -/
-theorem window_eq_getFrames (den : Nat) (f : WavFile) (s e : Int)
-    (hs : 0 ≤ samplesIn den f.rate s) (he : 0 ≤ samplesIn den f.rate e) :
-    window den f (s, e) = Wav.getFrames ⟨f.width, f.rate, f.data⟩ ⟨s, den⟩ ⟨e, den⟩ := by
-  have e1 : sampleAtTime ⟨s, den⟩ f.rate = samplesIn den f.rate s := by
-    unfold sampleAtTime samplesIn; rw [Int.mul_comm]
-  have e2 : sampleAtTime ⟨e, den⟩ f.rate = samplesIn den f.rate e := by
-    unfold sampleAtTime samplesIn; rw [Int.mul_comm]
-  unfold Wav.getFrames Wav.index indexAtTime
-  simp only [e1, e2]
-  rw [getB_window _ _ _ _ hs he]
-  rfl
+/-- the window is what `Wav.getFrames` returns for the same times on the recording loaded in memory — for ALL times
+(negative, reversed or beyond the end included: both classes clamp the index into the recording) -/
+theorem window_eq_getFrames (den : Nat) (f : WavFile) (s e : Int) :
+    cwindow den f (s, e) = Wav.getFramesRaw ⟨f.width, f.rate, f.data⟩ ⟨s, den⟩ ⟨e, den⟩ := by
+  have h1 := read_window den f s e
+  rw [C16.query_eq_wav] at h1
+  exact (Except.ok.inj h1).symm
 
 /-- at sample level: the window holds the samples `[round(rate·s), round(rate·e))` of the recording (an end index
 inside the file: enforced for every interval of a keep / delete list, `out_of_range_rejected`) -/
@@ -1591,44 +1618,55 @@ theorem sine_length (den rate width : Nat) (vals : Nat → Int) (d : Int) (bs : 
 
 /-! ## 11. `extractSubwav` -/
 
-/-- **extractSubwav writes the source's parameters and exactly the window of the source** — for every pair of times
-whose start index is a position of the file (a reversed pair: an empty file; an end beyond the recording: clamped) -/
-theorem extract_spec (den : Nat) (f : WavFile) (s e : Int)
-    (hs : 0 ≤ samplesIn den f.rate s) (hsn : samplesIn den f.rate s ≤ f.nframes) :
-    extractSubwav f ⟨s, den⟩ ⟨e, den⟩ = .ok ⟨f.width, f.rate, window den f (s, e)⟩ := by
+/-- over a common positive denominator the order of two times is the order of their numerators -/
+theorem lt_common (den : Nat) (hden : 0 < den) (e s : Int) : ((⟨e, den⟩ : QTime) < ⟨s, den⟩) ↔ e < s := by
+  show e * (den : Int) < s * (den : Int) ↔ e < s
+  constructor
+  · intro h; exact Int.lt_of_mul_lt_mul_right h (by omega)
+  · intro h; exact Int.mul_lt_mul_of_pos_right h (by omega)
+
+/-- **extractSubwav writes the source's parameters and exactly the window of the source** — for EVERY pair of times
+`s ≤ e` (a time outside the recording: clamped to its first / last frame); the other pairs: `extract_reversed` -/
+theorem extract_spec (den : Nat) (f : WavFile) (s e : Int) (h : ¬ (⟨e, den⟩ : QTime) < ⟨s, den⟩) :
+    extractSubwav f ⟨s, den⟩ ⟨e, den⟩ = .ok ⟨f.width, f.rate, cwindow den f (s, e)⟩ := by
   unfold extractSubwav QueryWav.getFrames
   simp only [Option.getD_some]
-  rw [read_window den f s e hs hsn]
+  rw [if_neg h, read_window den f s e]
   rfl
 
-/-- … and for every other start nothing is written: `wave.Error` (`setpos`) -/
-theorem extract_outside (den : Nat) (f : WavFile) (s e : Int)
-    (h : samplesIn den f.rate s < 0 ∨ (f.nframes : Int) < samplesIn den f.rate s) :
-    extractSubwav f ⟨s, den⟩ ⟨e, den⟩ = .error .WaveError := by
+/-- **a reversed pair of times is rejected and nothing is written** (`ArgumentError` from `QueryWav.getFrames`,
+commit 0a07868; it used to write an empty file) -/
+theorem extract_reversed (f : WavFile) (s e : QTime) (h : e < s) : extractSubwav f s e = .error .ArgumentError := by
   unfold extractSubwav QueryWav.getFrames
   simp only [Option.getD_some]
-  rw [read_window_error den f s e h]
+  rw [if_pos h]
 
-/-- the file-backed path (QueryWav) and the in-memory path (`Wav.getSubwav`) extract the same frames — for any two
-times (each with its own denominator) whose start index is a position of the file and whose end index is not negative;
-reversed and beyond-the-end windows included.  Outside: the file-backed path raises `wave.Error` (`extract_outside`)
-where the in-memory slice returns nothing or counts from the end (C16's domain). -/
-theorem extract_eq_getSubwav (f : WavFile) (s e : QTime)
-    (hs0 : 0 ≤ sampleAtTime s f.rate) (hs1 : sampleAtTime s f.rate ≤ f.nframes) (he0 : 0 ≤ sampleAtTime e f.rate) :
-    extractSubwav f s e = .ok ⟨f.width, f.rate, (Wav.getSubwav ⟨f.width, f.rate, f.data⟩ s e).frames⟩ := by
-  have e1 : roundHalfEven ((f.rate : Int) * s.num) s.den = sampleAtTime s f.rate := by
-    unfold sampleAtTime; rw [Int.mul_comm]
-  have e2 : roundHalfEven ((f.rate : Int) * e.num) e.den = sampleAtTime e f.rate := by
-    unfold sampleAtTime; rw [Int.mul_comm]
+/-- … in particular a start outside the recording no longer raises `wave.Error` (`setpos`): a start before the
+recording extracts from its first frame, a start beyond it extracts an empty file -/
+theorem extract_outside (den : Nat) (f : WavFile) (s e : Int) (h : ¬ (⟨e, den⟩ : QTime) < ⟨s, den⟩) :
+    (samplesIn den f.rate s ≤ 0 →
+      extractSubwav f ⟨s, den⟩ ⟨e, den⟩ = .ok ⟨f.width, f.rate, f.data.take (cidx den f e * f.width)⟩) ∧
+    ((f.nframes : Int) ≤ samplesIn den f.rate s → extractSubwav f ⟨s, den⟩ ⟨e, den⟩ = .ok ⟨f.width, f.rate, []⟩) := by
   unfold extractSubwav QueryWav.getFrames
   simp only [Option.getD_some]
-  unfold readFramesAtTime
-  simp only [e1, e2]
-  rw [readAt_window f _ _ hs0 hs1]
-  unfold Wav.getSubwav Wav.getFrames Wav.index indexAtTime
-  simp only
-  rw [getB_window _ _ _ _ hs0 he0]
-  rfl
+  rw [if_neg h]
+  constructor
+  · intro h'; rw [(read_window_outside den f s e).1 h']; rfl
+  · intro h'; rw [(read_window_outside den f s e).2 h']; rfl
+
+/-- the file-backed path (QueryWav) and the in-memory path (`Wav.getSubwav`) extract the same frames, or raise the
+same `ArgumentError` — for ANY two times (each with its own denominator) -/
+theorem extract_eq_getSubwav (f : WavFile) (s e : QTime) :
+    extractSubwav f s e =
+      match Wav.getSubwav ⟨f.width, f.rate, f.data⟩ s e with
+      | .ok w => .ok ⟨f.width, f.rate, w.frames⟩
+      | .error err => .error err := by
+  unfold extractSubwav QueryWav.getFrames Wav.getSubwav Wav.getFrames
+  simp only [Option.getD_some]
+  by_cases h : e < s
+  · rw [if_pos h, if_pos h]
+  · rw [if_neg h, if_neg h, C16.query_eq_wav f s e]
+    rfl
 
 
 /-! ## 12. `splitAudioOnTier`: one output per entry, names, frames, cropped TextGrids -/
@@ -1800,61 +1838,39 @@ theorem split_label_collision (stem : String) (n i j : Nat) (l : String) :
 /-! ### frames (exact instance: a timestamp `k` is `k / den`) -/
 
 /-- **each written wave file holds the source's parameters and exactly the window of its entry** — no condition on
-the entries: when the call succeeds, every entry starts at a position of the recording (`split_entries_inside`) -/
+the entries (an entry outside the recording — a TextGrid longer than the recording — gets the clamped window) -/
 theorem split_frames (den : Nat) (f : WavFile) (g : Tg Int) (stem : String) (flag : TgFlag)
     (style : NameStyle) (noPartial : Bool) (n : Nat) : ∀ (i : Nat) (es : List (Iv Int)) (outs : List (SplitOut Int)),
       SplitRel (fun k => ⟨k, den⟩) f g stem flag style noPartial n i es outs →
-      outs.map (·.wav) = es.map (fun iv => ⟨f.width, f.rate, window den f (iv.s, iv.e)⟩)
+      outs.map (·.wav) = es.map (fun iv => ⟨f.width, f.rate, cwindow den f (iv.s, iv.e)⟩)
   | _, [], [], _ => rfl
   | i, iv :: rest, o :: outs, ⟨⟨_, h2, h3, h4, _⟩, hrest⟩ => by
     have ih := split_frames den f g stem flag style noPartial n (i + 1) rest outs hrest
-    have hw : o.wav = ⟨f.width, f.rate, window den f (iv.s, iv.e)⟩ := by
+    have hw : o.wav = ⟨f.width, f.rate, cwindow den f (iv.s, iv.e)⟩ := by
       unfold QueryWav.getFrames at h2
       simp only [Option.getD_some] at h2
-      by_cases hin : 0 ≤ samplesIn den f.rate iv.s ∧ samplesIn den f.rate iv.s ≤ f.nframes
-      · rw [read_window den f iv.s iv.e hin.1 hin.2] at h2
-        have hd := Except.ok.inj h2
-        cases hwav : o.wav with
-        | mk w r d =>
-          rw [hwav] at h3 h4 hd
-          simp only at h3 h4 hd
-          rw [h3, h4, ← hd]
-      · rw [read_window_error den f iv.s iv.e (by omega)] at h2
-        cases h2
+      by_cases hrev : (⟨iv.e, den⟩ : QTime) < ⟨iv.s, den⟩
+      · rw [if_pos hrev] at h2; cases h2
+      rw [if_neg hrev, read_window den f iv.s iv.e] at h2
+      have hd := Except.ok.inj h2
+      cases hwav : o.wav with
+      | mk w r d =>
+        rw [hwav] at h3 h4 hd
+        simp only at h3 h4 hd
+        rw [h3, h4, ← hd]
     simp only [List.map_cons, hw, ih]
   | _, [], _ :: _, h => by cases h
   | _, _ :: _, [], h => by cases h
 
-/-- when `splitAudioOnTier` succeeds, every entry starts at a position of the recording … -/
-theorem split_entries_inside (den : Nat) (f : WavFile) (g : Tg Int) (stem : String) (flag : TgFlag)
-    (style : NameStyle) (noPartial : Bool) (n : Nat) : ∀ (i : Nat) (es : List (Iv Int)) (outs : List (SplitOut Int)),
-      SplitRel (fun k => ⟨k, den⟩) f g stem flag style noPartial n i es outs →
-      ∀ iv ∈ es, 0 ≤ samplesIn den f.rate iv.s ∧ samplesIn den f.rate iv.s ≤ f.nframes
-  | _, [], [], _ => by intro iv hiv; cases hiv
-  | i, x :: rest, o :: outs, ⟨⟨_, h2, _⟩, hrest⟩ => by
-    intro iv hiv
-    rcases List.mem_cons.1 hiv with rfl | hiv
-    · unfold QueryWav.getFrames at h2
-      simp only [Option.getD_some] at h2
-      by_cases hin : 0 ≤ samplesIn den f.rate iv.s ∧ samplesIn den f.rate iv.s ≤ f.nframes
-      · exact hin
-      · rw [read_window_error den f iv.s iv.e (by omega)] at h2
-        cases h2
-    · exact split_entries_inside den f g stem flag style noPartial n (i + 1) rest outs hrest iv hiv
-  | _, [], _ :: _, h => by cases h
-  | _, _ :: _, [], h => by cases h
-
-/-- … because an entry that starts before the first or after the last position of the recording (a TextGrid longer
-than the recording) stops the loop with the `wave.Error` of `setpos` — the files of the earlier entries are already
-written -/
-theorem split_entry_outside (den : Nat) (f : WavFile) (g : Tg Int) (stem : String) (flag : TgFlag)
-    (style : NameStyle) (noPartial : Bool) (n i : Nat) (iv : Iv Int) (rest : List (Iv Int))
-    (h : samplesIn den f.rate iv.s < 0 ∨ (f.nframes : Int) < samplesIn den f.rate iv.s) :
-    splitLoop (fun k => ⟨k, den⟩) f g stem flag style noPartial n i (iv :: rest) = .error (.audio .WaveError) := by
-  simp only [splitLoop]
+/-- reading the audio of an entry never stops the loop: whatever the entry's times, `QueryWav.getFrames` returns the
+(clamped) window — before the repair 300c9d2 an entry that started outside the recording raised the `wave.Error` of
+`setpos` after the files of the earlier entries had been written -/
+theorem split_entry_outside (den : Nat) (f : WavFile) (iv : Iv Int) (h : ¬ (⟨iv.e, den⟩ : QTime) < ⟨iv.s, den⟩) :
+    QueryWav.getFrames f (some ⟨iv.s, den⟩) (some ⟨iv.e, den⟩) = .ok (cwindow den f (iv.s, iv.e)) := by
   unfold QueryWav.getFrames
   simp only [Option.getD_some]
-  rw [read_window_error den f iv.s iv.e h]
+  rw [if_neg h]
+  exact read_window den f iv.s iv.e
 
 /-! ### the cropped TextGrids -/
 
@@ -2132,13 +2148,13 @@ theorem nested_delete_counterexample :
 
 /-- **a time beyond the recording is not rejected when the interval holding it has another one nested inside**: the
 bounds check looks at the end of the interval that *starts* last.  As a keep list the outer interval is read up to the
-end of the recording (and the inner one a second time); as a delete list the reversed "gap" `(3.0, 0.5)` is read and
-`setpos` raises `wave.Error` instead of the documented `ArgumentError`
+end of the recording (and the inner one a second time); as a delete list the reversed "gap" `(3.0, 0.5)` is read as an empty
+stretch (before the repair 300c9d2 `setpos` raised `wave.Error`) instead of the documented `ArgumentError`
 (`keepIntervals / deleteIntervals = [(0.25, 3.0), (0.5, 1.0)]` on a 2 s recording) -/
 theorem nested_out_of_range_counterexample :
     readFramesAtTimes 8 exFile 16 (some [(2, 24), (4, 8)]) [] none =
       .ok [3, 4, 5, 6, 7, 8, 9, 10, 11, 12, 13, 14, 15, 16, 5, 6, 7, 8] ∧
-    readFramesAtTimes 8 exFile 16 none [(2, 24), (4, 8)] none = .error (.audio .WaveError) := by
+    readFramesAtTimes 8 exFile 16 none [(2, 24), (4, 8)] none = .ok [1, 2, 9, 10, 11, 12, 13, 14, 15, 16] := by
   have hkd1 := kd_keep_eval 0 16 [(2, 24), (4, 8)] _
     [⟨0, 2, false⟩, ⟨2, 24, true⟩, ⟨4, 8, true⟩, ⟨8, 16, false⟩, ⟨24, 4, false⟩] (by simp)
     (ex_invert_nested 24 (Or.inr rfl)) (by decide) (by decide)
